@@ -63,7 +63,12 @@ def random_config(rng, max_w=16, max_h=8):
     if asym:
         wavelet_ho = rng.randrange(7)
         depth = rng.choice([0, 1, 1, 2])
-        depth_ho = rng.choice([1, 1, 2])
+        depth_ho = rng.choice([1, 1, 2, 0])
+        if depth_ho == 0:
+            depth = rng.choice([1, 2, 3])
+            if rng.random() < 0.5:
+                # the one asymmetric pair with default quantisation matrices
+                wavelet, wavelet_ho = 3, 1
     else:
         wavelet_ho = wavelet
         depth = rng.choice([0, 1, 1, 2, 2, 3])
@@ -107,7 +112,7 @@ def random_config(rng, max_w=16, max_h=8):
         picture_bytes=None,
         qm=None,
         npics=rng.choice([1, 1, 2, 3]),
-        pic_kind=rng.choice(["noise", "noise", "noise", "zero", "max", "const"]),
+        pic_kind=rng.choice(["noise", "noise", "noise", "zero", "max", "const", "mid"]),
         pic_seed=rng.randrange(1 << 30),
         first_pic_num=rng.choice([None, 0, 0, 2, 1000, (1 << 32) - 2, (1 << 32) - 1]),
         nseq=rng.choice([1, 1, 1, 2]),
@@ -260,6 +265,10 @@ def make_pictures(cfg, seq_index=0):
                 rows = [[0] * w for _ in range(h)]
             elif kind == "max":
                 rows = [[top] * w for _ in range(h)]
+            elif kind == "mid":
+                # exact mid-grey: every transform coefficient is zero whatever
+                # the depth, wavelet or slice layout
+                rows = [[(1 << d) >> 1] * w for _ in range(h)]
             else:
                 v = rng.randint(0, top)
                 rows = [[v] * w for _ in range(h)]
